@@ -51,6 +51,14 @@ def segment_ops(draw, measured, allow_ff=True):
     for o in ops_:
         if o[0] in ("Pgate", "CXgate", "Xgate", "Zgate"):
             o[1][0] = float(np.clip(o[1][0], -0.3, 0.3))
+    if draw(st.integers(0, 3)) == 0:
+        # a mergeable neighbour: same operation on the same modes with its own parameters (what the optimiser merges)
+        k = draw(st.integers(0, len(ops_) - 1))
+        if ops_[k][0] not in ("Coherent", "Squeezed", "MZgate"):
+            twin = [ops_[k][0], draw(gen.op_params(ops_[k][0], "fock")), list(ops_[k][2]), dict(ops_[k][3])]
+            if twin[0] in ("Pgate", "CXgate", "Xgate", "Zgate"):
+                twin[1][0] = float(np.clip(twin[1][0], -0.3, 0.3))
+            ops_.insert(k + 1, twin)
     extra = draw(st.sampled_from(["none", "none", "measure", "feedforward", "free"]))
     if extra == "measure":
         m = draw(st.integers(0, N - 1))
@@ -182,7 +190,7 @@ class World:
 
     # ---- engine calls ------------------------------------------------------------------------
     def run_pending(self, mode):
-        """mode: 'list' | 'successive' | 'concat'"""
+        """mode: 'list' | 'successive' | 'concat' | 'list_opt' (one list, compile_options={"optimize": True})"""
         if not self.pending:
             return None
         segs = self.pending
@@ -214,6 +222,9 @@ class World:
                     res = None
                     for p in built:
                         res = self.eng[b].run(p, args=args)
+                elif mode == "list_opt":
+                    self.labels.add("run_with_optimize")
+                    res = self.eng[b].run(built if len(built) > 1 else built[0], args=args, compile_options={"optimize": True})
                 else:
                     res = self.eng[b].run(built if len(built) > 1 else built[0], args=args)
             except Violation:
@@ -290,9 +301,10 @@ class World:
                 return self.ctx.fail("run.mutated_program.%s" % b, "re-running changed the user's program: " + d)
         return None
 
-    def compile_check(self, compiler):
-        """compile a freshly built copy of the first executed segment: source untouched, result is another object, and running the
-        compiled program gives the same state"""
+    def compile_check(self, compiler, optimize=False):
+        """compile (optionally with optimize=True, or Program.optimize() for compiler 'optimize') a freshly built copy of the first
+        executed segment: source untouched, result is another object, and running the compiled program gives the same state; the
+        source, run afterwards, still gives the same state"""
         if not self.executed:
             return None
         seg0 = self.executed[0]
@@ -307,7 +319,9 @@ class World:
             if "a" in p.free_params and compiler == "gaussian_unitary":
                 p.bind_params({"a": self.bind["a"]})
                 sn = spec.snapshot(p)
-            c = p.compile(compiler=compiler)
+            if optimize:
+                self.labels.add("compile_with_optimize")
+            c = p.optimize() if compiler == "optimize" else p.compile(compiler=compiler, optimize=optimize)
         except CircuitError:
             return None
         except Exception as exc:  # pylint: disable=broad-except
@@ -328,6 +342,16 @@ class World:
         d = spec.snapshot_diff(sn, spec.snapshot(p))
         if d:
             return self.ctx.fail("compile.mutated_program.%s" % compiler, "running the compiled copy changed the user's program: " + d)
+        if optimize or compiler == "optimize":
+            # the source program, run after it was compiled/optimised, still computes what it computed before
+            try:
+                np.random.seed(7)
+                res = self._fresh_engine("gaussian").run(p, args={"a": self.bind["a"]} if "a" in p.free_params else None)
+            except Exception as exc:  # pylint: disable=broad-except
+                return self._crash("gaussian", exc, "run_source_after_" + compiler) or None
+            r = self.compare("gaussian", res.state, [seg0], "run_source_after_optimize.%s" % compiler)
+            if r is not None:
+                return r
         return None
 
     def failing_run(self):
@@ -372,7 +396,7 @@ def check_history(ctx, case):
         elif a[0] == "rerun":
             r = w.rerun_last()
         elif a[0] == "compile":
-            r = w.compile_check(a[1])
+            r = w.compile_check(a[1], bool(a[2]) if len(a) > 2 else False)
         elif a[0] == "failing_run":
             r = w.failing_run()
     if w.pending:
@@ -403,13 +427,13 @@ def make_machine(ctx):
             self.world.add_segment(ops_)
 
         @precondition(lambda self: self.world is not None and self.world.pending)
-        @rule(mode=st.sampled_from(["list", "successive", "concat"]))
+        @rule(mode=st.sampled_from(["list", "successive", "concat", "list_opt"]))
         def run(self, mode):
             self.case["history"].append(["run", mode])
             self.world.run_pending(mode)
 
         @precondition(lambda self: self.world is not None and len(self.world.pending) >= 2)
-        @rule(mode=st.sampled_from(["list", "successive", "concat"]))
+        @rule(mode=st.sampled_from(["list", "successive", "concat", "list_opt"]))
         def run_several(self, mode):
             self.case["history"].append(["run", mode])
             self.world.run_pending(mode)
@@ -427,10 +451,10 @@ def make_machine(ctx):
             self.world.rerun_last()
 
         @precondition(lambda self: self.world is not None and self.world.executed)
-        @rule(compiler=st.sampled_from(["gaussian", "fock", "bosonic", "gaussian_unitary"]))
-        def compile(self, compiler):
-            self.case["history"].append(["compile", compiler])
-            self.world.compile_check(compiler)
+        @rule(compiler=st.sampled_from(["gaussian", "fock", "bosonic", "gaussian_unitary", "optimize"]), optimize=st.booleans())
+        def compile(self, compiler, optimize):
+            self.case["history"].append(["compile", compiler, optimize])
+            self.world.compile_check(compiler, optimize)
 
         @rule()
         def failing_run(self):
